@@ -8,7 +8,7 @@ CHECKS = {
     'C05': dict(
         technique='explicit-state enumeration of expression trees (product bound) on the real classes; NumPy reference on basis assignments',
         text='Exhaustive bounded exploration: every expression tree up to depth 2 (thorough 3) over all leaf classes, '
-             '12 (15) shapes, ~45 index expressions, all operators with all constant shapes/dtypes/sparse, is built on the '
+             '12 (15) shapes, ~45 index expressions, all operators with all constant shapes/dtypes (float, int, unsigned)/sparse, is built on the '
              'real rsome classes and compared with NumPy on every basis assignment, which decides the affine/bi-affine '
              'function for all variable values. Right level: the defects live in shape/index branch selection, which the '
              'small-scope product covers by construction. A history family re-uses an intermediate object (index / sum, result '
@@ -24,7 +24,7 @@ CHECKS['C01'] = dict(
     text='Every RoSpec of a bounded grammar (36 set kinds incl. intersections and lower-dimensional sets, attachments via '
          'minmax/forall, all LDR dependency masks and declaration styles, constraint surface forms, senses, objective forms, '
          'dimensions 1-3, solver interfaces, scaled atoms c*f<=c*r, mirrored dependence on the random components, every way of '
-         'handing a set to minmax/forall, piecewise functions written with offsets / scalings, late random variables) is built and solved on the real code; the returned decisions are substituted '
+         'handing a set to minmax/forall, piecewise functions written with offsets / scalings, late random variables, retarget histories: decoy sets, a first formulation, then forall(declared set) on the already stated constraint objects) is built and solved on the real code; the returned decisions are substituted '
          'into the spec and each constraint is evaluated on reference member points of its set (exact vertices / dense '
          'boundary lattice with exact facet corners). A positive value at a member point is a real violation, so alarms are sound.',
     note='Trusted: closed-form membership tests, NumPy, solver tolerances (2e-6 LP, 2e-5 ECOS, 2e-4 Gurobi). Bounds: d<=3, nx=2, '
@@ -46,7 +46,7 @@ CHECKS['C03'] = dict(
          'scenario incl. Wasserstein-style lifted supports, 9 expectation-set structures on events (sub-events, overlapping, '
          'non-contiguous), 5 probability sets, every set partition x affine mask x declaration order of the decisions, '
          'E / piecewise / bi-affine / robust objectives, E-, robust-, equality- and piecewise rows (also written with offsets inside / outside E), '
-         'separate adaptive variables, mirrored dependence, scaled supports, with default, forall(ambiguity) and '
+         'separate adaptive variables, mirrored dependence, scaled supports, array-valued rows, 2-norm / KL probability sets together with expectation sets (two scenarios, exact p-interval), late-declaration histories (decoy ambiguity set, first formulation, then the declared suppset / exptset / probset in every spelling), with default, forall(ambiguity) and '
          'forall(support) attachments) is built and solved on the real code; the returned decisions are read back through the '
          'public expression-call API and the worst-case expectation of the objective and of every E-row over the declared '
          'ambiguity set is computed by an independent LP over distributions on support vertices.',
@@ -109,7 +109,7 @@ CHECKS['C16'] = dict(
 CHECKS['C09'] = dict(
     technique='explicit-state search over real API call histories (all words up to a depth, BFS of an abstract state graph to fixpoint, all linear extensions, aliasing matrix); differential oracle against a fresh canonical build',
     text='Five history explorations on the real rsome: (leak) ordered pairs/triples of set definitions over 17 set kinds (each landing in a different list of the shared set '
-         'model) with decoys, for ro forall/minmax/maxmin and dro suppset/exptset/probset/forall; (seq) every word of length 4 (5) over declaration/formulate/solve/soc_solve/get '
+         'model) with decoys and EMPTY set definitions, for ro forall/minmax/maxmin and dro suppset/exptset/probset/forall; (seq) every word of length 4 (5) over declaration/formulate/solve/soc_solve/get '
          'alphabets for ro and dro with every checkpoint compared to a fresh build; (graph) BFS to fixpoint over (declared set, cache flags, reformulation count, soc flag) with honest '
          'replays; (order) all linear extensions of 7 declarations plus noise events; (alias) one expression object in ordered pairs of constructs vs fresh copies. An exception on one '
          'side only is a disagreement.',
@@ -168,7 +168,7 @@ CHECKS['C18'] = dict(
     design='DESIGN.md 4/C18')
 CHECKS['C19'] = dict(
     technique='exhaustive enumeration of models x repetition histories x user-array variants on the real rsome; numerical equality of standard-form snapshots across repetitions, fresh builds and subprocesses with different hash seeds',
-    text='Models from small generators (LP/SOCP/exp, ro, dro) x histories over {do_math, do_math(False), solve(s), soc_solve} up to length 4 x user arrays as float64/float32/int/Fortran/strided/read-only/0-d/sparse at every entry point: '
+    text='Models from small generators (LP/SOCP/exp, ro, dro) x histories over {do_math, do_math(False), solve(s), soc_solve} up to length 4 x user arrays as float64/float32/int/unsigned int/Fortran/strided/read-only/0-d/sparse at every entry point: '
          'formula snapshots equal across repetitions, two fresh builds and two subprocesses with different PYTHONHASHSEED; global RNG state and user arrays untouched; read-only arrays behave like writable ones.',
     note='-0.0 and 0.0 identified; non-float64 arrays compared with the float64 copy of the same values.',
     design='DESIGN.md 4/C19')
